@@ -27,6 +27,15 @@ Search (property oracle, independent of the model; works on the RAW snippet text
   * new user keys with upper-case letters (cased_key), property and raw bodies, and the user's keywords typed after them;
   * user tables supplied through the GLOBAL config (type section, syntax section, call config, every combination; see
     layered_stream): oracle only, the model is compared on the merged table for a few configurations.
+  * PROPERTY NAMES IN EVERY SHAPE (DASHED_PROPS): a quarter of the user property snippets (random user tables, value tables,
+    global-config layers, config shapes, call sequences) are written under a vendor-prefixed (`-webkit-appearance`), custom
+    (`--gap`), one-dash (`-x`), double-dash-inside (`x--y`) or one-letter property name: the key must print
+    `<that name><between><first value><after>`, its keywords resolve, @@section must not reach it;
+  * RAW PLACEHOLDERS THAT ARE CSS FRAGMENTS (rand_raw_body): raw bodies of 1-4 tabstops (numbers 0..100, repeated numbers)
+    whose placeholders begin / end with the delimiter `:` (`:hover`, `::before`, a lone `:`, `a:`), with other punctuation
+    (`-x`, `--a`, `#fff`, `.item`, `@media`, `!important`, `$var`, `x;`, `a|`), with blanks, or contain brackets / quotes /
+    `${`; both callbacks (the tabstop callback shows `${n:<placeholder>}` exactly as written, the identity callback the
+    placeholder itself);
   * HOW THE LIBRARY IS CALLED (harness/c06_calls.py), oracle only:
     CONFIG SHAPES (shape_stream, layered_stream): optional keys of the config left out vs. written out with their default
     (`syntax` for the default stylesheet syntax css, `options`, `snippets`, `context`), global config left out / {} /
@@ -248,8 +257,8 @@ def listed_class(cfg_json, typed, src=None, tables=()):
     src = src if src is not None else sn.get(typed)
     if isinstance(src, str) and re.search(r'\)\$\{', src):
         return KEY_AFTER_CALL
-    if isinstance(src, str) and re.search(r'(?:^[^:]*:|[\s|(,])\s*-(?:[A-Za-z_]|\$\{)', src):
-        return KEY_LEADING_DASH              # a value token written with a leading dash before a letter / tabstop
+    if isinstance(src, str) and classify(src)[0] == 'prop' and re.search(r'(?:^[^:]*:|[\s|(,])\s*-(?:[A-Za-z_]|\$\{)', src):
+        return KEY_LEADING_DASH              # a VALUE token (of a property snippet) written with a leading dash before a letter / tabstop
     return None
 
 
@@ -308,19 +317,96 @@ def keyword_oracle(prop, kw, is_fn, listed, cfg, r):
 
 # ---------------------------------------------------------------- user tables
 USER_PROPS = ['margin', 'foo-bar', 'x-y-z', 'color', 'grid-area', 'my-prop']
+DASHED_PROPS = ['-webkit-appearance', '-moz-user-select', '-ms-flex', '-o-transition', '-webkit-box-shadow', '--gap', '--my-var', '--x',
+                '-x', 'x--y', 'q']
+"""PROPERTY NAMES IN EVERY SHAPE a stylesheet property name takes (CSS: an identifier may begin with one dash -- vendor
+prefixes -webkit- / -moz- / -ms- / -o- -- or with two -- custom properties `--gap` --, may have two dashes inside, may be
+one letter).  `<name>:<values>` with such a name is a property snippet like any other (the rule the oracle's classify
+hard-codes: lower-case letters and dashes up to the `:`)."""
+P_DASHED_PROP = 0.25
 USER_VALUES = ['', 'auto', 'a|b|c', '${1:x} ${2:y}', 'none|${1:some}', 'url(${0})', 'f(${1:a}, ${2:b})|g()', '10px', '#${1:fff}',
                '"q r"', 'a b c|d', 'inherit|initial|unset', 'Arial|Verdana|sansSerif', 'currentColor|red', '${1:a }${2:b} ${3:c}|none',
-               'alpha|beta|gamma']
+               'alpha|beta|gamma', 'none|button|textfield']
 USER_BODIES = ['x ${1} y ${2:z}', '@rule ${1:name} {\n\t${0}\n}', '/* ${0} */', 'foo(${1:a}) bar', 'plain text', '${1:only}',
                'form\x0cfeed ${1}', 'ls\u2028ps\u2029 ${1:x}\x0b\x85y', 'cr\rlf\r\nend']
 KEY_WORDS = ['zquux', 'mycenterawesome', 'zq', 'qv', 'xfoo', 'zedprop', 'bdx', 'posq', 'mmq', 'kq', 'zzr', 'ab', 'q']
 
+# RAW BODIES WHOSE TABSTOP PLACEHOLDERS ARE CSS FRAGMENTS.  A tabstop of a raw snippet is `${n}` or `${n:<placeholder>}`:
+# ONE colon separates the number from the placeholder, everything up to the closing brace is the placeholder (TextMate /
+# editor snippet notation, the one the README uses for snippets).  A placeholder is any text without `}`: it may itself
+# begin or end with the delimiter character (pseudo-classes `:hover`, pseudo-elements `::before`, a lone `:`), with
+# other punctuation (`-x`, `--a`, `#fff`, `.cls`, `@media`, `!important`, `$var`), with blanks, and may contain `:` `|`
+# `;` `,` `(` `{` `$` quotes inside.
+RAW_PLACEHOLDERS = {
+    'word': ['x', 'name', 'li', 'sel', 'value'],
+    'leading-colon': [':hover', ':focus', ':not(.active)', ': detail', ':nth-child(2n+1)', ':x'],
+    'leading-colons': ['::before', '::after', ':::x', '::'],
+    'lone-colon': [':'],
+    'trailing-colon': ['a:', 'x::', 'color:', 'k: '],
+    'inner-colon': ['a:b', 'a:hover', 'x: y', 'a::b:c'],
+    'leading-punctuation': ['-x', '--a', '-', '#fff', '.item', '@media', '!important', '$var', '&', '*', '~', '>', '+ li', '/', '\\', '?', '='],
+    'trailing-punctuation': ['x-', 'a--', 'x;', 'a,', 'a.', 'x!', 'a|', 'x$', 'a#', 'x/', 'a='],
+    'blanks-around': [' x', 'x ', ' x ', '  a  b  ', '\ta'],
+    'brackets-and-quotes': ['(', ')', 'f(a)', '{', '{y', 'a${b', '$', '${', '[x]', '"q"', "'", '"', "it's", 'a|b|c', 'a;b', 'a,b'],
+    'number-like': ['0', '10px', '1.5', '-1', '#0', '50%'],
+}
+RAW_LITERALS = ['a', 'li', '.item', '&', ' {', '}', ' ', '\n\t', '\n}', '/* ', ' */', "content: '", "';", '@media ', '(', ')', ': ', ';', ':', '::',
+                ' > ', ', ', 'x', 'border: ', '\r\n\t', '[', ']', '#', '.']
+RAW_INDICES = [0, 1, 1, 2, 2, 3, 4, 5, 9, 10, 12, 100]
+
+
+def rand_raw_body(rng):
+    """a raw body of 1-4 tabstops (about a quarter without placeholder) between / next to literal pieces; no literal piece
+    ends with a line break (that is the listed finding class c06:raw-linebreak-before-field-or-end, explored by
+    cssvalues_gen.RAW_BODIES)."""
+    while True:
+        parts = []
+        if rng.random() < 0.6:
+            parts.append(rng.choice(RAW_LITERALS))
+        for _ in range(rng.randint(1, 4)):
+            n = rng.choice(RAW_INDICES)
+            if rng.random() < 0.25:
+                parts.append('${%d}' % n)
+            else:
+                cls = rng.choice(sorted(RAW_PLACEHOLDERS))
+                parts.append('${%d:%s}' % (n, rng.choice(RAW_PLACEHOLDERS[cls])))
+            for _ in range(rng.choice([0, 1, 1, 2])):
+                parts.append(rng.choice(RAW_LITERALS))
+        body = ''.join(parts)
+        if classify(body)[0] == 'raw' and not vg.raw_in_finding_class(body):
+            return body
+
+
+PLACEHOLDER_CLASS = {ph: cls for cls, phs in RAW_PLACEHOLDERS.items() for ph in phs}
+
+
+def cover_snippet(ctx, src):
+    """evidence: the shape of the property name / the classes of the raw placeholders of a user snippet that was typed"""
+    kind = classify(src)
+    if kind[0] == 'prop':
+        ctx.cover('c06:user-prop-name:' + prop_name_shape(kind[1]))
+        return
+    for seg in vg.raw_segments(src):
+        if seg[0] == 'field':
+            ctx.cover('c06:raw-placeholder:' + ('none' if not seg[2] else PLACEHOLDER_CLASS.get(seg[2], 'word')))
+
+
+def rand_prop_name(rng):
+    return rng.choice(DASHED_PROPS) if rng.random() < P_DASHED_PROP else rng.choice(USER_PROPS)
+
+
+def prop_name_shape(p):
+    return ('custom-property(--x)' if p.startswith('--') else 'vendor-prefix(-x)' if p.startswith('-') else 'one-letter' if len(p) == 1 else
+            'double-dash-inside' if '--' in p else 'dashed' if '-' in p else 'word')
+
 
 def rand_snip(rng):
     if rng.random() < 0.7:
-        p = rng.choice(USER_PROPS)
+        p = rand_prop_name(rng)
         v = rng.choice(USER_VALUES)
         return p + (':' + v if v else '')
+    if rng.random() < 0.5:
+        return rand_raw_body(rng)
     return rng.choice(USER_BODIES)
 
 
@@ -506,6 +592,7 @@ def gen(ctx):
             for k in user:
                 cases.append((cfg, k, ('key', t, k), 'user-key', None))
                 ctx.cover('c06:user-key:' + key_shape(k))
+                cover_snippet(ctx, user[k])
                 kind = classify(user[k])
                 if scope is not None or kind[0] != 'prop':
                     continue
@@ -632,6 +719,18 @@ def run(ctx):
         'user table, scopes none/@@global/@@property/@@section, both callbacks, shared-cache sessions with a call under ANOTHER '
         'user table in between.  A checked call that fails only after earlier calls is reported with the earlier calls minimised by '
         'delta debugging (replay re-runs the sequence in a fresh session).  '
+        'PROPERTY NAMES IN EVERY SHAPE: 25%% of the user property snippets of every stream that draws user snippets (random user '
+        'tables, value tables, global-config layers, config shapes, call sequences) carry a vendor-prefixed (-webkit-appearance, '
+        '-moz-user-select, -ms-flex, -o-transition), custom (--gap, --my-var, --x), one-dash (-x), double-dash-inside (x--y) or '
+        'one-letter (q) property name; key, keywords after the key and all four scopes are checked as for any property snippet '
+        '(buckets c06:user-prop-name:*).  RAW PLACEHOLDERS THAT ARE CSS FRAGMENTS: half of the raw bodies of those streams and 10%% '
+        'of the value tables\' entries are generated bodies of 1-4 tabstops (numbers from {0,1,2,3,4,5,9,10,12,100}, repeats '
+        'allowed, a quarter without placeholder) between literal pieces; placeholders drawn from 11 classes: word, leading colon '
+        '(:hover), leading colons (::before, ::), a lone colon, trailing colon, inner colon, leading punctuation (-x --a #fff .item '
+        '@media !important $var & * ~ > / \\ ? =), trailing punctuation, blanks around, brackets and quotes (( ) { ${ [x] " \' a|b '
+        'a;b a,b), number-like; expected = the body itself with each tabstop through the callback (ONE colon separates number and '
+        'placeholder), both callbacks (buckets c06:raw-placeholder:*); no literal piece ends with a line break (that listed '
+        'finding class stays with cssvalues_gen.RAW_BODIES).  '
         'Oracle: raw snippet text vs output (see module docstring).  Tie: output string of the Coq model; callback events for the '
         'value stream.  Non-trivial: every case; distinct by (configuration, abbreviation).')
     cases = gen(ctx)
@@ -708,12 +807,17 @@ def rand_value_table(rng, base, size=None):
             continue
         lows.add(k.lower())
         r = rng.random()
-        if r < 0.15:
+        if r < 0.1:
             t[k] = rng.choice(vg.RAW_BODIES)
-        elif r < 0.3:
+        elif r < 0.2:
+            t[k] = rand_raw_body(rng)          # placeholders that are CSS fragments (`:hover`, `::before`, `:`, `-x`, ..)
+        elif r < 0.33:
             t[k] = vg.gen_glued_snippet(rng)          # tabstops written close to the token before them
         else:
             t[k] = vg.gen_snippet(rng, canonical=rng.random() < 0.85)[0]
+        if classify(t[k])[0] == 'prop' and rng.random() < P_DASHED_PROP:
+            # the same value under a vendor-prefixed / custom / one-letter property name
+            t[k] = rng.choice(DASHED_PROPS) + t[k][re.match(r'[a-z-]+', t[k]).end():]
     return t
 
 
@@ -771,6 +875,7 @@ def value_stream(ctx, ok, tables):
         ctx.count_eval()
         ctx.nontrivial((ck, k))
         ctx.cover('c06:user-%s-snippet' % ('value' if kind == 'prop' else 'raw'))
+        cover_snippet(ctx, src)
         ctx.cover('c06:syntax:' + cfg.syntax)
         ctx.cover('c06:callback:' + ('tabstop' if cfg.tabstop else 'identity'))
         if kind == 'prop':
